@@ -180,7 +180,19 @@ func init() {
 				neg := idx%2 == 0
 				follow := idx/2 == 1
 				if tok[0] == '-' && !neg {
-					c.Count("out_of_domain")
+					// negative indices are off: what a remove at a negative index does under the option is not for the
+					// reference to say, but -99999999999999999999 is as far out of range as -7 and must fare the same
+					o := V5Opts{NegIdx: false, EscapeHTML: true, AllowMissing: true}
+					p1 := OpText("remove", dc.arr+"/"+tok, "", "", false)
+					p2 := OpText("remove", dc.arr+"/-7", "", "", false)
+					r1, r2 := ApplyV5(dc.doc, PatchText([]string{p1}), o, ""), ApplyV5(dc.doc, PatchText([]string{p2}), o, "")
+					c.Eval(2)
+					if r1.Panic != nil || r2.Panic != nil || (r1.Err == nil) != (r2.Err == nil) || string(r1.Out) != string(r2.Out) {
+						c.Violation("negative-index-beyond-the-int-range-fares-differently-from-minus-seven", map[string]any{"doc": dc.doc, "options": o.String(),
+							"patch_long": p1, "result_long": map[string]any{"out": clip(string(r1.Out), 300), "err": errText(r1.Err)},
+							"patch_minus_seven": p2, "result_minus_seven": map[string]any{"out": clip(string(r2.Out), 300), "err": errText(r2.Err)}})
+					}
+					c.Count("huge-index:negatives-off-compared")
 					return
 				}
 				path := dc.arr + "/" + tok
